@@ -175,8 +175,9 @@ def sparse_getitem(sparse, idxs):
                 indices = new_indices
                 values = values[mask]
             else:
-                indices.resize_(indices.size(0) - 1, 1).zero_()
-                values.resize_(1).zero_()
+                # NOTE: indices / values may still be the caller's sparse._indices() / sparse._values(): allocate, do not resize
+                indices = torch.zeros(indices.size(0) - 1, 1, dtype=indices.dtype, device=indices.device)
+                values = torch.zeros(1, dtype=values.dtype, device=values.device)
 
             if not len(size):
                 return sum(values)
@@ -200,8 +201,9 @@ def sparse_getitem(sparse, idxs):
                 indices = new_indices
                 values = values[mask]
             else:
-                indices.resize_(indices.size(0), 1).zero_()
-                values.resize_(1).zero_()
+                # NOTE: indices / values may still be the caller's sparse._indices() / sparse._values(): allocate, do not resize
+                indices = torch.zeros(indices.size(0), 1, dtype=indices.dtype, device=indices.device)
+                values = torch.zeros(1, dtype=values.dtype, device=values.device)
 
         else:
             raise RuntimeError("Unknown index type")
